@@ -179,10 +179,26 @@ def check(ctx):
     ctx.rule("R45.3", "quote()'s output forms are single quoted-string tokens; unquote strips one matching pair")
     ctx.rule("R45.4", "execute drops only Space tokens and unquotes the rest")
     ctx.rule("R45.5", "interpreted path execute -> parse_partial -> Command.call -> parsearg hands the argument types exactly [v, tail] for the line `cmd quote(v) tail`")
+    ctx.rule("R45.6", "the lexer keeps TABs: parse_with_tabs() is applied to an expression whose grammar matches TAB (pyparsing expands tabs to spaces otherwise)")
     m = ctx.model
     q = ctx.func(LEX, "quote")
     u = ctx.func(LEX, "unquote")
     mod = m.module(LEX)
+
+    # ---- R45.6  library contract: ParserElement.parse_string() replaces every TAB by spaces before parsing unless parse_with_tabs()
+    # was called on the expression.  quote() protects a TAB by quoting the value, so without it a quoted argument containing a TAB
+    # reaches the command altered (F-C45tab).  Decided on the construction of `expr` and on every parse_string call site.
+    top_expr = mod.assigns("expr")
+    ctx.require(bool(top_expr), "command_lexer.expr vanished")
+    keeps_tabs = any(isinstance(c, ast.Call) and last_attr(c.func) in ("parse_with_tabs", "parseWithTabs") for c in ast.walk(top_expr[-1]))
+    for st in mod.tree.body:  # also accepted as a separate statement: expr.parse_with_tabs()
+        if isinstance(st, ast.Expr) and isinstance(st.value, ast.Call) and last_attr(st.value.func) in ("parse_with_tabs", "parseWithTabs") and norm(st.value.func).startswith("expr."):
+            keeps_tabs = True
+    matches_tab = any(isinstance(c, ast.Constant) and isinstance(c.value, str) and "\t" in c.value for c in ast.walk(top_expr[-1])) or "\\s" in ast.unparse(top_expr[-1])
+    ctx.check(keeps_tabs or not matches_tab, "R45.6", (LEX, "<module>", top_expr[-1]), "expr ... .parse_with_tabs()",
+              "the lexer's grammar matches TAB characters but the expression is parsed with pyparsing's default tab expansion: a TAB inside a quoted argument reaches the command as spaces",
+              desc="command_lexer.expr is parsed with tabs kept")
+    ctx.expect_instances("R45.6", 1)
 
     # ---- R45.1
     subs = []
@@ -433,6 +449,8 @@ def _pipeline_rule(ctx, alts, run, candidates, trig):
 
 
 MUTANTS = [
+    # reverse of the F-C45tab fix (5a3229b09)
+    Mutant("F-C45tab-reverted-tabs-expanded", LEX, "    .parse_with_tabs()\n", "", "R45.6"),
     Mutant("second-escape-without-inverse", LEX, "return '\"' + val.replace('\"', r\"\\x22\") + '\"'", "return '\"' + val.replace('\"', r\"\\x22\").replace(\"\\t\", r\"\\x09\") + '\"'", "R45.1"),
     Mutant("tab-not-trigger", LEX, "for char in \"'\\\" \\r\\n\\t\")", "for char in \"'\\\" \\r\\n\")", "R45.2"),
     Mutant("lexer-splits-on-comma", LEX, 'pyparsing.Word(" \\r\\n\\t")', 'pyparsing.Word(" \\r\\n\\t,")', "R45.2"),
@@ -441,10 +459,10 @@ MUTANTS = [
     Mutant("unquote-strips-mismatched", LEX, "and x[0] == x[-1]:", "and x[-1] in \"'\\\"\":", "R45.3"),
     Mutant("double-quote-even-if-present", LEX, "    if '\"' not in val:\n        return f'\"{val}\"'", "    if \"'\" in val:\n        return f'\"{val}\"'", "R45.3"),
     # seed C45a: token classes rewritten as regexes over the Unicode whitespace category (and harmless variants must stay silent: see R45.2)
-    Mutant("lexer-classes-as-unicode-regexes", LEX, '    | pyparsing.Word(" \\r\\n\\t")\n    | pyparsing.CharsNotIn("""\'" \\r\\n\\t""")',
-           '    | pyparsing.Regex(r"\\s+")\n    | pyparsing.Regex(r"""[^\'"\\s]+""")', "R45.2"),
-    Mutant("lexer-whitespace-adds-formfeed", LEX, 'pyparsing.Word(" \\r\\n\\t")\n    | pyparsing.CharsNotIn("""\'" \\r\\n\\t""")',
-           'pyparsing.Word(" \\r\\n\\t\\f")\n    | pyparsing.CharsNotIn("""\'" \\r\\n\\t\\f""")', "R45.2"),
+    Mutant("lexer-classes-as-unicode-regexes", LEX, '        | pyparsing.Word(" \\r\\n\\t")\n        | pyparsing.CharsNotIn("""\'" \\r\\n\\t""")',
+           '        | pyparsing.Regex(r"\\s+")\n        | pyparsing.Regex(r"""[^\'"\\s]+""")', "R45.2"),
+    Mutant("lexer-whitespace-adds-formfeed", LEX, 'pyparsing.Word(" \\r\\n\\t")\n        | pyparsing.CharsNotIn("""\'" \\r\\n\\t""")',
+           'pyparsing.Word(" \\r\\n\\t\\f")\n        | pyparsing.CharsNotIn("""\'" \\r\\n\\t\\f""")', "R45.2"),
     Mutant("execute-keeps-quotes", CMD, "unquote(part.value) for part in parts if part.type != mitmproxy.types.Space", "part.value for part in parts if part.type != mitmproxy.types.Space", "R45.4"),
     # R45.5 - seed C45b (a second unquote behind execute) and other edits of the argument on its way to the type
     Mutant("parsearg-unquotes-again", CMD, "        return t.parse(manager, argtype, spec)", "        return t.parse(manager, argtype, unquote(spec))", "R45.5"),
